@@ -449,7 +449,9 @@ def build(prog, all_fns=False):
         fn = prog["fns"][name]
 
         def body(*args, **kwargs):
-            env = {"p": list(args), "k": dict(kwargs), "v": {}}
+            # keyword parameters have defaults (as in `def sub(mu, scale=1.0)`): the IR always passes them, so a default that
+            # shows up in a density means that a keyword argument was lost on the way
+            env = {"p": list(args), "k": {**{k: jnp.asarray(0.25, dtype=jnp.float32) for k in fn["kw"]}, **kwargs}, "v": {}}
             for s in fn["body"]:
                 kind, addr = s[0], s[1]
                 if kind == "draw":
